@@ -133,6 +133,13 @@ theorem cylinderTris_lt {sides : Nat} (hs : 1 ≤ sides) (top bottom : Bool) :
     have := circleTris_lt hs a ha
     cases top <;> simp only [if_true, if_false, Bool.false_eq_true] <;> omega
 
+theorem cylinderTris_nocaps_lt (sides : Nat) :
+    ∀ i ∈ cylinderTris sides false false, i < cylinderVerts sides false false := by
+  intro i hi
+  have : i ∈ cylinderSideTris sides := by simpa [cylinderTris] using hi
+  have := cylinderSideTris_lt sides i this
+  simp [cylinderVerts]; omega
+
 theorem cylinderTris_len (sides : Nat) (top bottom : Bool) : (cylinderTris sides top bottom).length % 3 = 0 := by
   have h1 : (cylinderSideTris sides).length % 3 = 0 := length_flatMap_mod3 _ _ (fun _ _ => by simp)
   have h2 := circleTris_len sides
